@@ -94,7 +94,8 @@ def case_strategy(draw, tier="quick", mode=None, kinds=None):
         cm = {str(i): "sync" for i in sinks}
     md = draw(st.lists(st.sampled_from([1, 1, 2, 0]), min_size=1, max_size=4))
     return {"spec": spec, "events": [list(e) for e in events], "faults": faults, "mode": m,
-            "cmodes": cm, "md": md, "prelude": m in ("threaded", "sync") and draw(st.booleans())}
+            "cmodes": cm, "md": md, "prelude": draw(st.sampled_from([False, "exception", "interrupt"]))
+            if m in ("threaded", "sync") else False}
 
 
 def run_real(case):
@@ -144,12 +145,17 @@ def run_real(case):
             with install():
                 s0 = Stream(asynchronous=True)
 
+                class Interrupt(BaseException):
+                    """like KeyboardInterrupt: not an Exception"""
+
                 def boom(x):
+                    if case["prelude"] == "interrupt":
+                        raise Interrupt()
                     raise Boom(("prelude", 0, 0))
                 m0 = s0.map(boom)
                 try:
                     s0.emit(1)
-                except Boom:
+                except (Boom, Interrupt):
                     pass
                 del m0
         b = specs.build(spec, log, asynchronous="thread" if case["mode"] == "threaded" else False,
